@@ -9,31 +9,31 @@ TRUST = ("Trusted base: the simulated Linux kernel model (verif/sim/kernel, rule
 
 claimed = {
  "C01": dict(cat="exploration", ref="5/C01",
-   text="Seeded search over write-operation sequences x kernel acceptance patterns x schedules on the real nbio code running on a simulated kernel; reference model = append-only byte log per connection (single writer) or record framing (concurrent writers); checked at every peer read and at quiescence of a fault-free fair phase. Finds lost/duplicated/reordered/interleaved bytes and short counts without error; cannot prove their absence.",
+   text="Seeded search over write-operation sequences x kernel acceptance patterns x schedules on the real nbio code running on a simulated kernel; reference model = append-only byte log per connection (single writer) or record framing (concurrent writers); checked at every peer read and at quiescence of a fault-free fair phase. Finds lost/duplicated/reordered/interleaved bytes and short counts without error; cannot prove their absence. Before the random search a fault-point sweep is ENUMERATED: every small plan x mode x transport x capacity x peer behaviour, undisturbed and with exactly one scripted short write at every position (DESIGN.md 10.5).",
    tech="deterministic simulation: seeded scheduler + simulated kernel with short-write/EAGAIN/EINTR injection, byte-stream reference model"),
  "C02": dict(cat="exploration", ref="5/C02",
-   text="Seeded search over the full engine configuration matrix with simulated peers (bursts around the read-buffer size, pauses, half-close/close/reset, echo and concurrent writers) on the simulated kernel; oracle: per connection the concatenation of data-callback arguments is a prefix of what the kernel model made readable and equals it at quiescence for connections that stay open or end orderly; callbacks of one connection never overlap; UDP: same connection object per remote, one callback per queued datagram with equal payload; a progress-free fair phase dominated by reads is a spinning reader.",
+   text="Seeded search over the full engine configuration matrix with simulated peers (bursts around the read-buffer size, pauses, half-close/close/reset, echo and concurrent writers) on the simulated kernel; oracle: per connection the concatenation of data-callback arguments is a prefix of what the kernel model made readable and equals it at quiescence for connections that stay open or end orderly; callbacks of one connection never overlap; UDP: same connection object per remote, one callback per queued datagram with equal payload; a progress-free fair phase dominated by reads is a spinning reader. One run index in eight (part idle) judges the outbound scenarios - accepted, added and dialed connections - for pollers or readers that keep running although nothing moves; 12% of the inbound cases start their peers while Engine.Start is still running.",
    tech="deterministic simulation: seeded scheduler + simulated epoll/sockets over the configuration matrix, inbound byte-stream reference model, livelock detection"),
  "C03": dict(cat="exploration", ref="5/C03",
-   text="Seeded search over connection histories (accepted / added / asynchronously dialed with connected, refused and never-answered outcomes) ended by every cause, several at once, with injected dup and EPOLL_CTL_ADD failures and a final Engine.Stop; oracle: per-connection lifecycle automaton fed by callbacks and API returns (open before close, exactly one close by quiescence and by the time Stop returns, none without open, first-cause error by event order, closed indication and no descriptor access after Close returned, dial outcome exactly once and truthful against the kernel model).",
+   text="Seeded search over connection histories (accepted / added / asynchronously dialed with connected, refused and never-answered outcomes) ended by every cause, several at once, with injected dup and EPOLL_CTL_ADD failures and a final Engine.Stop; oracle: per-connection lifecycle automaton fed by callbacks and API returns (open before close, exactly one close by quiescence and by the time Stop returns, none without open, first-cause error by event order, closed indication and no descriptor access after Close returned, dial outcome exactly once and truthful against the kernel model). One run index in nine each: UDP listener sessions (ended by Close, deadlines, inside their own open notification, opened by an empty datagram, hit by datagrams while they end; every session audited after Stop) and part stoprace (the stop scenarios judged for the lifecycle clauses: no close notification without the open notification, one outcome per asynchronous dial, also AF_UNIX dials that complete at once).",
    tech="deterministic simulation: seeded interleaving + fault search with a lifecycle reference automaton"),
  "C04": dict(cat="exploration", ref="5/C04",
-   text="Bounded liveness by simulation: after the generated history all faults stop, scheduling becomes fair and the peer keeps reading; at quiescence every accepted byte must have arrived while the connection is open, and a progress-free fair phase (30000 steps) is a livelock. Backlogs are created from goroutines, open/data callbacks and before epoll registration, in LT/ET/ONESHOT.",
+   text="Bounded liveness by simulation: after the generated history all faults stop, scheduling becomes fair and the peer keeps reading; at quiescence every accepted byte must have arrived while the connection is open, and a progress-free fair phase (30000 steps) is a livelock. Backlogs are created from goroutines, open/data callbacks and before epoll registration, in LT/ET/ONESHOT. Preceded by the enumerated fault-point sweep of C01, judged for liveness; connections made by DialAsync over TCP and AF_UNIX included.",
    tech="deterministic simulation: bounded-liveness check in a fault-free fair phase after seeded fault/schedule search"),
  "C05": dict(cat="exploration", ref="5/C05",
-   text="Real Conn.Execute/MustExecute code under the seeded scheduler with 1-4 concurrent submitters, jobs that yield, panic or resubmit, Close at a random point and three executor kinds; the recorded history (invoke/return stamps of submissions, start/end stamps of runs) is checked against the sequential model: disjoint run intervals, exactly-once for accepted jobs, never for rejected ones, rejection only after Close was invoked and always after it returned, FIFO by real-time precedence.",
+   text="Real Conn.Execute/MustExecute code under the seeded scheduler with 1-4 concurrent submitters, jobs that yield, panic or resubmit, Close at a random point and three executor kinds; the recorded history (invoke/return stamps of submissions, start/end stamps of runs) is checked against the sequential model: disjoint run intervals, exactly-once for accepted jobs, never for rejected ones, rejection only after Close was invoked and always after it returned, FIFO by real-time precedence. 8% of the job histories begin with a held-up job and 30-1000 jobs queued behind it (one drain session far beyond the ordinary list lengths); a job runner that dies of an internal runtime error and leaves the world stuck is reported.",
    tech="deterministic simulation: seeded interleaving search, history checked for linearizability against a FIFO single-consumer queue model"),
  "C16": dict(cat="exploration", ref="5/C16",
-   text="Timed histories of Set*Deadline / Write / Close on the simulated clock, which the scheduler also advances while the renewing goroutine is parked; every timeout close and, at quiescence, every deadline still in force is judged by a reference model of the documented semantics (never early, right kind, not stale, enforced). Core deadlines only; keep-alive timing of nbhttp/websocket is not covered by this check.",
+   text="Timed histories of Set*Deadline / Write / Close on the simulated clock, which the scheduler also advances while the renewing goroutine is parked; every timeout close and, at quiescence, every deadline still in force is judged by a reference model of the documented semantics (never early, right kind, not stale, enforced). Core deadlines only; keep-alive timing of nbhttp/websocket is not covered by this check. The histories include CloseAfterFlush (deferred by a backlog: the deadlines stay in force).",
    tech="deterministic simulation: simulated clock with scheduler-controlled timer/renewal races, deadline reference model"),
  "C18": dict(cat="exploration", ref="5/C18",
-   text="Arbitrary preceding history, then Stop / Shutdown(live ctx) raced with late connects, dials, closes and writes (optionally right after Start); bounded liveness (Stop returns in the fair phase) plus leak audit from the simulator's side: close notification per opened connection at return, listener gone, no engine goroutine alive, no simulated descriptor open, no timer armed. Core engine only.",
+   text="Arbitrary preceding history, then Stop / Shutdown(live ctx) raced with late connects, dials, closes and writes (optionally right after Start); bounded liveness (Stop returns in the fair phase) plus leak audit from the simulator's side: close notification per opened connection at return, listener gone, no engine goroutine alive, no simulated descriptor open, no timer armed. Core engine only. 10% of the core cases set MaxOpenFiles so low that some of the run's descriptors are refused by the engine.",
    tech="deterministic simulation: bounded-liveness + leak audit (goroutines, descriptors, timers) after seeded Stop races"),
  "C06": dict(cat="fault_enumeration", ref="5/C06",
    text="The transport's segmentation is the simulated fault: for every generated (optionally corrupted) pipelined HTTP/1.x stream the check ENUMERATES every single cut position, byte-at-a-time and a seeded set of multi-cut segmentations, and compares the recording Processor's event log and verdict with the one-piece feed. Complete over single cuts per stream; the stream space is sampled from a grammar.",
    tech="deterministic simulation of the transport: exhaustive single-cut enumeration per seeded stream against the one-piece reference run"),
  "C07": dict(cat="exploration", ref="5/C07",
-   text="Differential check against net/http as reference codec on generated well-formed pipelined messages travelling the real parser -> ServerProcessor -> handler path; compared field by field including the end offset of every message. Candidly an input-space search; the simulator contributes segmentation, pipelining, replay and shrinking.",
+   text="Differential check against net/http as reference codec on generated well-formed pipelined messages travelling the real parser -> ServerProcessor -> handler path; compared field by field including the end offset of every message. Candidly an input-space search; the simulator contributes segmentation, pipelining, replay and shrinking. Chunk sizes in lower-case, upper-case and zero-padded hexadecimal; Connection fields with option lists and repeated Connection fields.",
    tech="seeded differential testing against a reference parser inside the simulated transport harness"),
  "C08": dict(cat="exploration", ref="5/C08",
    text="Byzantine peer / corrupting transport: a swept catalogue of malformed framing metadata plus seeded byte-level corruption, oversize fields and garbage, in random segmentation with small ReadLimit / MaxHTTPBodySize; oracle: no (recovered) panic, silence after the first error, catalogue rejected, retained pooled bytes and body sizes bounded (measured by the tracking allocator).",
@@ -45,10 +45,10 @@ claimed = {
    text="nbhttp.Engine on the simulated kernel in all three I/O modes and epoll modes with 1-4 concurrent raw simulated clients (pipelining, segmentation, bodies around internal thresholds, HTTP/1.0 and 1.1, keep-alive/close); per connection the received stream must decode to exactly one answer per request, in order, each echoing its request's unique id and keyed body; handlers of one connection never overlap; connections are kept or closed as dictated. TLS and the nbhttp.Client callback clause are NOT explored by this check.",
    tech="deterministic simulation: seeded scheduler + simulated kernel with short writes/reads and in-flight delivery, request/response id matching via an independent HTTP decoder"),
  "C14": dict(cat="exploration", ref="5/C14",
-   text="nbhttp.Engine + websocket.Upgrader on the simulated kernel: three upgrade paths x epoll modes, compliant simulated clients that may send immediately after the 101, 0-4 concurrent WriteMessage goroutines per connection with fragmentation, connections ending by close frame, reset or application Close; callback-grammar oracle (open completes first, messages in wire order without overlap, close exactly once and last) and peer-side frame oracle (whole messages, contiguous fragments, exactly once). The HandleRead path (std net/http connections) and TLS are NOT explored.",
+   text="nbhttp.Engine + websocket.Upgrader on the simulated kernel: three upgrade paths x epoll modes, compliant simulated clients that may send immediately after the 101, 0-4 concurrent WriteMessage goroutines per connection with fragmentation, connections ending by close frame, reset or application Close; callback-grammar oracle (open completes first, messages in wire order without overlap, close exactly once and last) and peer-side frame oracle (whole messages, contiguous fragments, exactly once). The HandleRead path (std net/http connections) and TLS are NOT explored. Options drawn per case: ReleasePayload (payload compared before and after the callback), unsolicited pongs with a pong handler in the one-callback-at-a-time accounting, BlockingModSendQueueMaxSize 1-5; dialer part: connections ended inside an open callback on either side.",
    tech="deterministic simulation: seeded interleaving + fault search with callback-grammar and independent frame-codec oracles"),
  "C11": dict(cat="exploration", ref="5/C11",
-   text="Ownership-tracking allocator (never recycles, poisons on Free, quarantines) installed at the public allocator seam while seeded HTTP handler programs, WebSocket round trips, byzantine frame sequences, corrupted request streams and limit scenarios run with transport failures; flags double free, use/append after free, foreign free, write after free and poison on the wire. Single-threaded: close races are out of reach of this check.",
+   text="Ownership-tracking allocator (never recycles, poisons on Free, quarantines) installed at the public allocator seam while seeded HTTP handler programs, WebSocket round trips, byzantine frame sequences, corrupted request streams and limit scenarios run with transport failures; flags double free, use/append after free, foreign free, write after free and poison on the wire. Single-threaded: close races are out of reach of this check. One run index in sixteen runs the inbound scenarios with application supplied read buffers (OnReadBufferAlloc / OnReadBufferFree on the tracked pool).",
    tech="deterministic simulation with transport fault injection and an ownership-tracking allocator as runtime oracle"),
  "C12": dict(cat="exploration", ref="5/C12",
    text="Two real websocket.Conn endpoints joined by the simulated transport; seeded message sequences over all length classes, content kinds, roles, compression levels and frame-size limits; the wire is judged by an independent frame codec and delivered in enumerated single cuts (small cases), seeded multi-cuts or fixed read sizes; receiver log must equal sender log.",
@@ -57,13 +57,13 @@ claimed = {
    text="Byzantine peer: seeded frame sequences over the header space with spliced-in violations, in random segmentation, judged by an executable reference validator written from RFC 6455; latitude points of the RFC assert nothing.",
    tech="deterministic simulation of a byzantine peer against an executable RFC 6455 reference validator"),
  "C15": dict(cat="exploration", ref="5/C15",
-   text="Limits drawn small; single frames, all fragment partition classes and permessage-deflate bombs straddling the limit, control frames around 125 bytes, trickled giant lengths; besides delivery and 1009 answers the tracking allocator measures the bytes actually buffered, which catches limits enforced only after inflating.",
+   text="Limits drawn small; single frames, all fragment partition classes and permessage-deflate bombs straddling the limit, control frames around 125 bytes, trickled giant lengths; besides delivery and 1009 answers the tracking allocator measures the bytes actually buffered, which catches limits enforced only after inflating. The fragment scenarios put a ping of 0-125 bytes between the first two fragments in 30% of the cases (no part of the message).",
    tech="deterministic simulation of a hostile peer with allocator-side measurement of buffered bytes"),
  "C20": dict(cat="exploration", ref="5/C20",
    text="Model-based operation sequences on the three real allocators with a simulated sync.Pool whose Get returns any earlier Put or a new object by PRNG (five policies) and 1-3 simulated goroutines interleaved by the seeded scheduler; after every operation all live buffers are compared with the reference model and checked pairwise for memory overlap. Candidly mostly operation-sequence search; simulation adds pool policy and interleaving.",
    tech="deterministic simulation: seeded scheduler + simulated sync.Pool policies, model-based operation sequences with aliasing oracle"),
  "C17": dict(cat="exploration", ref="5/C17",
-   text="Exact backlog accounting from the simulated kernel's side (accepted buffer bytes minus bytes the kernel took) compared after every call with nbio's decision (accept / ErrOverflow) and with its internal counter; fill/drain cycles and sizes around the bound are generated.",
+   text="Exact backlog accounting from the simulated kernel's side (accepted buffer bytes minus bytes the kernel took) compared after every call with nbio's decision (accept / ErrOverflow) and with its internal counter; fill/drain cycles and sizes around the bound are generated. Preceded by the enumerated fault-point sweep; a write refused with a retryable error on an open connection although it fits is a violation (fitting-write-refused); 20% of the cases have 2-3 concurrent writers, for which a measured excess over the bound is judged.",
    tech="deterministic simulation: kernel-side ground-truth accounting vs implementation decisions under seeded acceptance patterns"),
  "C19": dict(cat="exploration", ref="5/C19",
    text="Real taskpool / IOTaskPool / timer.Async code under the seeded scheduler with bursts above the bound, panicking tasks and Stop racing submissions; oracles: exactly-once for tasks handed over before Stop, concurrency bound, self-calibrated capacity recovery (barrier of P0 tasks), FIFO/non-overlap for Async by real-time precedence.",
@@ -98,6 +98,6 @@ m = {
  "not_applicable": na,
  "notes": "Exit codes: 0 held, 1 + VIOLATION line, 2 infrastructure. VERIF_SEED selects the batch; VERIF_THOROUGH_S overrides the thorough search budget (seconds). Known findings: /verif/known_findings.json.",
 }
-if not na: del m["not_applicable"]
+# (kept also when empty: every property is claimed, none is listed as not applicable)
 json.dump(m, open(os.path.join(root, 'MANIFEST.json'), 'w'), indent=1)
 print("claimed:", [c['property_id'] for c in checks], "unclaimed:", len(na))
